@@ -6,7 +6,7 @@ rnd = int(sys.argv[1])
 for d in sys.argv[2:]:
     d = d.rstrip("/")
     sid = os.path.basename(d)
-    v = [l.strip() for l in open(os.path.join(d, "verify.txt")) if "=" in l and not l.startswith("  ")]
+    v = [l.strip() for l in open(os.path.join(d, "verify.txt"), errors="replace") if "=" in l and not l.startswith("  ")]
     kv = dict(l.split("=", 1) for l in v)
     if not (kv.get("unpatched_demo_exit") == "0" and kv.get("suite_exit") == "0" and kv.get("builds") == "yes" and kv.get("patched_demo_exit") not in ("0", None)):
         print(sid, "NOT CONFIRMED", kv); continue
